@@ -363,8 +363,17 @@ def restrict(ex, st, a):
 
 def add_valfn(ex, st, c, bound, res):
     args = []
+    via = c.options.get("valfn_args") or {}
     for p in c.params:
         a = bound[p]
+        if p in via:
+            # the callee's result depends on this argument only through the given expression of the arguments (e.g. "w * y");
+            # justified by a relational contract of the callee proved separately (named in the contract's note)
+            sub = State()
+            sub.heap = st.heap
+            sub.pc = st.pc
+            sub.env = dict(bound)
+            a = ex.eval(ast.parse(via[p], mode="eval").body, sub)
         if isinstance(a, Arr):
             if ex.ctx.options.get("restrict_valfn"):
                 args.append(restrict(ex, st, a))
